@@ -424,6 +424,7 @@ def run_case_impl(case, route="grad"):
         r.out_shape_ok = tuple(out_t.shape) == bshape + (tdim(out_ty),)
         flat = out_t
     r.out = flat.detach().double()
+    r.out_dtype = str(flat.dtype).replace("torch.", "")
     r.rec = rec
     if route == "grad":
         gs = torch.autograd.grad(flat, ts, grad_outputs=c, allow_unused=True)
@@ -431,6 +432,7 @@ def run_case_impl(case, route="grad"):
         flat.backward(c)
         gs = [t.grad for t in ts]
     r.grads = [None if g is None else g.detach().double() for g in gs]
+    r.grad_dtypes = [None if g is None else str(g.dtype).replace("torch.", "") for g in gs]
     r.leaf_tensors = ts
     return r
 
@@ -530,7 +532,7 @@ def collect_model(case, reps, index):
     """-> dict(eval[b], grad[b] (list per leaf), fd[b][leaf] or None)"""
     ltypes = [tuple(t) for t in case["ltypes"]]
     nb = int(math.prod(case["bshape"]))
-    M = {"eval": [None] * nb, "grad": [None] * nb, "abs": [None] * nb, "cmax": [0.0] * nb,
+    M = {"eval": [None] * nb, "grad": [None] * nb, "abs": [None] * nb, "cmax": [0.0] * nb, "jabs": None,
          "fd": [[None] * len(ltypes) for _ in range(nb)], "err": []}
     for rep, (kind, b, li) in zip(reps, index):
         st, toks = common.parse_reply(rep)
@@ -652,25 +654,52 @@ def leaf_cmax(case, M, li):
     return acc
 
 
+def blocks(ty):
+    """slot blocks of a gradient / tangent: translation, rotation, scale (group and algebra types), point / weight (E4)"""
+    k = ty[0]
+    if k in ("G", "A"):
+        return {"SO3": [(0, 3)], "SE3": [(0, 3), (3, 6)], "RxSO3": [(0, 3), (3, 4)], "Sim3": [(0, 3), (3, 6), (6, 7)]}[ty[1]]
+    if k == "E4":
+        return [(0, 3), (3, 4)]
+    return [(0, 3)]
+
+
+def row_scales(case, M, li, i_rows, blockwise):
+    """scale of every (row, block) of leaf li.  Deep programs: sum of |contributions| + largest cotangent met in the sweep
+    (conditioning of the chain).  Single Functions (`blockwise`): per slot block, max over the block of sum_i |c_i||J_ij|
+    when the driver was asked for it (`jabs`), else of |exact gradient| — no magnitude factor that could hide a wrong
+    small block next to a large one."""
+    ty = tuple(case["ltypes"][li])
+    wabs = leaf_rows(case, M, li, "abs")
+    if not blockwise:
+        cm = leaf_cmax(case, M, li)
+        return [[((0, tdim(ty)), max(ar, default=0.0) + cm[i])] for i, ar in enumerate(wabs)]
+    src = leaf_rows(case, M, li, "jabs") if M.get("jabs") is not None else wabs
+    out = []
+    for ar in src:
+        out.append([((lo, hi), max(ar[lo:hi], default=0.0)) for lo, hi in blocks(ty)])
+    return out
+
+
 def compare_grads(case, r, M, band):
     """-> list of (leaf, row, err, tol) where the real gradient and the model backprop differ beyond tolerance"""
     ltypes = [tuple(t) for t in case["ltypes"]]
     t = tol_rel(case["dtype"], band)
+    bw = bool(case.get("blockwise"))
     bad = []
     worst = 0.0
     for li, ty in enumerate(ltypes):
         want = leaf_rows(case, M, li, "grad")
-        wabs = leaf_rows(case, M, li, "abs")
-        cm = leaf_cmax(case, M, li)
         got = r.grads[li]
         got = [[0.0] * tdim(ty) for _ in want] if got is None else got.reshape(-1, tdim(ty)).tolist()
-        for i, (gr, wr, ar) in enumerate(zip(got, want, wabs)):
-            err = max((abs(a - b) for a, b in zip(gr, wr)), default=0.0)
-            sc = max(ar, default=0.0) + cm[i]
-            if sc > 0:
-                worst = max(worst, err / sc / t)
-            if not (err <= t * sc):
-                bad.append((li, i, err, t * sc))
+        sc = row_scales(case, M, li, len(want), bw)
+        for i, (gr, wr) in enumerate(zip(got, want)):
+            for (lo, hi), s_ in sc[i]:
+                err = max((abs(a - b) for a, b in zip(gr[lo:hi], wr[lo:hi])), default=0.0)
+                if s_ > 0:
+                    worst = max(worst, err / s_ / t)
+                if not (err <= t * s_):
+                    bad.append((li, i, err, t * s_))
     return bad, worst
 
 
@@ -681,6 +710,7 @@ def compare_oracle(case, r, M, band, trunc):
     bshape = tuple(case["bshape"])
     nb = int(math.prod(bshape))
     t = tol_rel(case["dtype"], band) + 30 * trunc
+    bw = bool(case.get("blockwise"))
     bad, nchk, nskip = [], 0, 0
     for li, ty in enumerate(ltypes):
         rows = [M["fd"][b][li] for b in range(nb)]
@@ -689,16 +719,17 @@ def compare_oracle(case, r, M, band, trunc):
             continue
         m = tangent_dim(ty)
         want = sum_to_leaf(bshape, tuple(case["lshapes"][li]), rows)
-        wabs = leaf_rows(case, M, li, "abs")
-        cm = leaf_cmax(case, M, li)
         got = r.grads[li]
         got = [[0.0] * tdim(ty) for _ in want] if got is None else got.reshape(-1, tdim(ty)).tolist()
+        sc = row_scales(case, M, li, len(want), bw)
         nchk += 1
-        for i, (gr, wr, ar) in enumerate(zip(got, want, wabs)):
-            err = max((abs(a - b) for a, b in zip(gr[:m], wr)), default=0.0)
-            sc = max(max(ar, default=0.0) + cm[i], max((abs(v) for v in wr), default=0.0))
-            if not (err <= t * sc):
-                bad.append((li, i, err, t * sc))
+        for i, (gr, wr) in enumerate(zip(got, want)):
+            for (lo, hi), s_ in sc[i]:
+                hi = min(hi, m)
+                err = max((abs(a - b) for a, b in zip(gr[lo:hi], wr[lo:hi])), default=0.0)
+                s2 = max(s_, max((abs(v) for v in wr[lo:hi]), default=0.0))
+                if not (err <= t * s2):
+                    bad.append((li, i, err, t * s2))
     return bad, nchk, nskip
 
 
@@ -712,6 +743,12 @@ def structural_checks(ctx, case, r):
     if not r.out_shape_ok:
         ctx.fail(case, f"type: output shape wrong for {ps}")
         ok = False
+    if not bool(torch.isfinite(r.out).all()):
+        ctx.fail(case, f"nan: value of {ps} contains NaN/Inf ({case['dtype']})")
+        ok = False
+    if r.out_dtype != case["dtype"]:
+        ctx.fail(case, f"type: value of {ps} has dtype {r.out_dtype}, inputs are {case['dtype']}")
+        ok = False
     want_lt = {"G": lambda g: g + "Type", "A": lambda g: U.ALG[g] + "Type"}.get(out_ty[0])
     if want_lt is not None and (not r.out_is_lie or r.out_ltype != want_lt(out_ty[1])):
         ctx.fail(case, f"type: output of {ps} is {r.out_ltype}, expected {want_lt(out_ty[1])}")
@@ -721,6 +758,9 @@ def structural_checks(ctx, case, r):
             continue
         if not bool(torch.isfinite(g).all()):
             ctx.fail(case, f"nan: gradient of leaf {li} ({ty}) of {ps} contains NaN/Inf ({case['dtype']})")
+            ok = False
+        if r.grad_dtypes[li] != case["dtype"]:
+            ctx.fail(case, f"type: gradient of leaf {li} of {ps} has dtype {r.grad_dtypes[li]}, leaf is {case['dtype']}")
             ok = False
         if tuple(g.shape) != tuple(case["lshapes"][li]) + (tdim(ty),):
             ctx.fail(case, f"type: gradient shape {tuple(g.shape)} of leaf {li} of {ps}")
@@ -736,79 +776,112 @@ def eps_variants(dtype):
     return [e, e * (1 + 2.0 ** -48), e * (1 - 2.0 ** -48)]
 
 
+def fetch_jabs(ctx: Ctx, case, eps_used):
+    """per item, per leaf: sum_i |c_i||J_ij| from the model (driver op c04.jabs)"""
+    node = from_json(case["prog"])
+    ltypes = [tuple(t) for t in case["ltypes"]]
+    ptoks = prog_tokens(node)
+    pstr = f"{len(ptoks)} " + " ".join(ptoks)
+    bshape = tuple(case["bshape"])
+    nb = int(math.prod(bshape))
+    flat_vals = [torch.tensor(v, dtype=torch.float64).reshape(-1, tdim(t)).tolist() for v, t in zip(case["values"], ltypes)]
+    cot = torch.tensor(case["cot"], dtype=torch.float64).reshape(nb, -1).tolist()
+    e = common.to_wire(eps_used)
+    lines = []
+    for b in range(nb):
+        iv = [fv[item_index(bshape, tuple(ls), b)] for fv, ls in zip(flat_vals, case["lshapes"])]
+        lines.append(f"c04.jabs {e} {pstr} {env_tokens(ltypes, iv)} {vec_tokens(cot[b])}")
+    out = []
+    for rep in run_driver_parallel(ctx, lines):
+        xs = [float(v) for v in common.reply_nums(rep)]
+        rows, o = [], 0
+        for t in ltypes:
+            rows.append(xs[o:o + tdim(t)])
+            o += tdim(t)
+        out.append(rows)
+    return out
+
+
+def assess(case, r, M):
+    """pure comparison of one case: forward value, gradient vs model reverse sweep, gradient vs finite-difference oracle"""
+    band, trunc = r.band, r.trunc
+    nb = int(math.prod(case["bshape"]))
+    dtype = case["dtype"]
+    tf = 4 * math.sqrt(common.EPS[dtype])
+    out = r.out.reshape(nb, -1).tolist() if nb else []
+    vmax = max((abs(x) for v in case["values"] for x in torch.tensor(v, dtype=torch.float64).flatten().tolist()), default=0.0)
+    A = {"fbad": None, "gbad": [], "obad": [], "nchk": 0, "nskip": 0, "oracle_skipped": False, "worst": 0.0}
+    for b in range(nb):
+        sc = max((abs(v) for v in M["eval"][b]), default=0.0) + 1e-10 * (1.0 + vmax)
+        e = max((abs(a - c) for a, c in zip(out[b], M["eval"][b])), default=0.0)
+        if not (e <= tf * sc) or len(out[b]) != len(M["eval"][b]):
+            A["fbad"] = (b, e, tf * sc)
+    A["gbad"], A["worst"] = compare_grads(case, r, M, band)
+    if trunc * 30 > 1e-2:
+        A["oracle_skipped"] = True
+    else:
+        A["obad"], A["nchk"], A["nskip"] = compare_oracle(case, r, M, band, trunc)
+    return A
+
+
+def record(ctx: Ctx, case, r, A):
+    node = from_json(case["prog"])
+    ps = prog_str(node)[:200]
+    dtype = case["dtype"]
+    if DEBUG:
+        ctx.hist["dbg.worst_ratio_x1000"] = max(ctx.hist.get("dbg.worst_ratio_x1000", 0), int(A["worst"] * 1000))
+    if A["fbad"]:
+        fb = A["fbad"]
+        ctx.disagree("fwd", case, f"value of {ps} ({dtype}): item {fb[0]} err {fb[1]:.3e} > {fb[2]:.3e}")
+    if A["gbad"]:
+        li, i, err, t = A["gbad"][0]
+        ctx.disagree("grad", case, f"backward of {ps} ({dtype}): leaf {li} {case['ltypes'][li]} row {i}: |autograd - model backprop| "
+                                   f"= {err:.3e} > {t:.3e} ({len(A['gbad'])} blocks)")
+    if A["oracle_skipped"]:
+        ctx.count("oracle.skipped.sim3-truncation")
+    else:
+        ctx.count("oracle.leaves-checked", A["nchk"])
+        if A["nskip"]:
+            ctx.count("oracle.leaves-skipped.fd-unstable", A["nskip"])
+        if A["obad"]:
+            li, i, err, t = A["obad"][0]
+            ops = sorted({f"{o}[{g}]" for o, g in prog_ops(node)})
+            ctx.fail(case, f"jacobian: autograd gradient of leaf {li} {case['ltypes'][li]} differs from the true left-perturbation "
+                           f"derivative by {err:.3e} > {t:.3e} in {ps} ({dtype}); ops {ops}")
+
+
 def evaluate_cases(ctx: Ctx, cases, stream, want_fd=True):
     """cases: list of (case, ImplResult). Runs the model for all of them, compares, records."""
     all_lines, spans = [], []
     for case, r in cases:
-        lines, index = model_lines(case, common.EPS[case["dtype"]], want_fd=want_fd)
+        wfd = want_fd if not isinstance(want_fd, (list, tuple, set)) else True
+        lines, index = model_lines(case, common.EPS[case["dtype"]], want_fd=wfd and case.get("fd", True))
         spans.append((len(all_lines), len(lines), index))
         all_lines += lines
     reps = run_driver_parallel(ctx, all_lines)
-    retry = []
     for (case, r), (o, n, index) in zip(cases, spans):
         M = collect_model(case, reps[o:o + n], index)
-        ok = judge_case(ctx, case, r, M, stream, final=False)
-        if ok is None:
-            retry.append((case, r, M))
-    # near a branch threshold the float code and the exact model may sit on different sides: evaluate the model with
-    # eps(1±2^-48) too and accept either (DESIGN §2.2)
-    for case, r, M0 in retry:
-        accepted = False
-        for ev in eps_variants(case["dtype"])[1:]:
-            lines, index = model_lines(case, ev, want_fd=False)
-            M = collect_model(case, ctx.driver.run(lines), index)
-            M["fd"] = M0["fd"]
-            if judge_case(ctx, case, r, M, stream, final=False, quiet=True) is True:
-                accepted = True
-                ctx.count("branch-neighbour-accepted")
-                break
-        if not accepted:
-            judge_case(ctx, case, r, M0, stream, final=True)
-
-
-def judge_case(ctx: Ctx, case, r, M, stream, final, quiet=False):
-    """True = everything agrees; None = model/impl disagreement (caller may retry with the neighbouring branch);
-    with final=True disagreements are recorded."""
-    node = from_json(case["prog"])
-    ps = prog_str(node)[:200]
-    band, trunc = r.band, r.trunc
-    nb = int(math.prod(case["bshape"]))
-    dtype = case["dtype"]
-    # forward value
-    tf = 4 * math.sqrt(common.EPS[dtype])
-    out = r.out.reshape(nb, -1).tolist() if nb else []
-    fbad = None
-    for b in range(nb):
-        sc = max(1.0, max((abs(v) for v in M["eval"][b]), default=0.0))
-        e = max((abs(a - c) for a, c in zip(out[b], M["eval"][b])), default=0.0)
-        if not (e <= tf * sc) or len(out[b]) != len(M["eval"][b]):
-            fbad = (b, e, tf * sc)
-    gbad, worst = compare_grads(case, r, M, band)
-    if DEBUG and not quiet:
-        ctx.hist["dbg.worst_ratio_x1000"] = max(ctx.hist.get("dbg.worst_ratio_x1000", 0), int(worst * 1000))
-    if (fbad or gbad) and not final:
-        return None
-    if fbad:
-        ctx.disagree("fwd", case, f"value of {ps} ({dtype}): item {fbad[0]} err {fbad[1]:.3e} > {fbad[2]:.3e}")
-    if gbad:
-        li, i, err, t = gbad[0]
-        ctx.disagree("grad", case, f"backward of {ps} ({dtype}): leaf {li} {case['ltypes'][li]} row {i}: |autograd - model backprop| = {err:.3e} > {t:.3e} ({len(gbad)} rows)")
-    if quiet:
-        return not (fbad or gbad)
-    # oracle: the property itself
-    if trunc * 30 > 1e-2:
-        ctx.count("oracle.skipped.sim3-truncation")
-    else:
-        obad, nchk, nskip = compare_oracle(case, r, M, band, trunc)
-        ctx.count("oracle.leaves-checked", nchk)
-        if nskip:
-            ctx.count("oracle.leaves-skipped.fd-unstable", nskip)
-        if obad:
-            li, i, err, t = obad[0]
-            ops = sorted({f"{o}[{g}]" for o, g in prog_ops(node)})
-            ctx.fail(case, f"jacobian: autograd gradient of leaf {li} {case['ltypes'][li]} differs from the true left-perturbation "
-                           f"derivative by {err:.3e} > {t:.3e} in {ps} ({dtype}); ops {ops}")
-    return not (fbad or gbad)
+        A = assess(case, r, M)
+        if case.get("blockwise") and (A["gbad"] or A["obad"]):
+            # a block may be small only through cancellation inside c @ J: ask the model for sum_i |c_i||J_ij|
+            M["jabs"] = fetch_jabs(ctx, case, common.EPS[case["dtype"]])
+            ctx.count("blockwise.jabs-fetched")
+            A = assess(case, r, M)
+        if A["fbad"] or A["gbad"]:
+            # near a branch threshold the float code and the exact model may sit on different sides: evaluate the model
+            # with eps(1±2^-48) too and accept either (DESIGN §2.2)
+            for ev in eps_variants(case["dtype"])[1:]:
+                lines, index = model_lines(case, ev, want_fd=False)
+                M2 = collect_model(case, ctx.driver.run(lines), index)
+                M2["fd"] = M["fd"]
+                if M.get("jabs") is not None:
+                    M2["jabs"] = M["jabs"]
+                A2 = assess(case, r, M2)
+                if not (A2["fbad"] or A2["gbad"]):
+                    ctx.count("branch-neighbour-accepted")
+                    A = A2
+                    break
+        record(ctx, case, r, A)
 
 
 # ----------------------------------------------------------------------------- streams
